@@ -288,6 +288,13 @@ func (p *provider) setSingleton(key instanceKey, instance any) {
 	}
 }
 
+// trackDisposable makes the provider dispose an instance that is not stored in the singleton table.
+func (p *provider) trackDisposable(d Disposable) {
+	p.disposablesMu.Lock()
+	p.disposables = append(p.disposables, d)
+	p.disposablesMu.Unlock()
+}
+
 // cacheSingleton stores a singleton under one more identity (an interface alias of a registration whose instance is
 // already tracked for disposal).
 func (p *provider) cacheSingleton(key instanceKey, instance any) {
